@@ -25,7 +25,7 @@ M = [
     ("params-off-by-one", "route.go", "\tfor i, val := range vs[1:] {\n\t\t// n := r.matches[i]\n\t\tps[r.matches[i]] = val\n\t}", "\tfor i, val := range vs[1:] {\n\t\tif i+1 < len(r.matches) {\n\t\t\tps[r.matches[i+1]] = val\n\t\t} else {\n\t\t\tps[r.matches[0]] = val\n\t\t}\n\t}", ["C02"]),
     ("head-fallback-after-fallback-route", "parse_match.go", "\t// for HEAD requests, attempt fallback to GET\n\tif method == HEAD {\n\t\troute, ps = r.match(GET, path)\n\t\tif route != nil {\n\t\t\treturn\n\t\t}\n\t}\n\n\t// handle fallback route. add by: router->Any(\"/*\", handler)\n\tif r.handleFallbackRoute {\n\t\tkey := method + \"/*\"\n\t\tif route, ok := r.stableRoutes[key]; ok {\n\t\t\treturn route, nil, nil\n\t\t}\n\t}", "\t// handle fallback route. add by: router->Any(\"/*\", handler)\n\tif r.handleFallbackRoute {\n\t\tkey := method + \"/*\"\n\t\tif route, ok := r.stableRoutes[key]; ok {\n\t\t\treturn route, nil, nil\n\t\t}\n\t}\n\n\t// for HEAD requests, attempt fallback to GET\n\tif method == HEAD {\n\t\troute, ps = r.match(GET, path)\n\t\tif route != nil {\n\t\t\treturn\n\t\t}\n\t}", ["C06"]),
     ("allow-includes-current-method", "parse_match.go", "\t\tif m == method { // expected current method\n\t\t\tcontinue\n\t\t}\n", "", ["C06"]),
-    ("allow-unsorted", "dispatch.go", "\tsort.Strings(allowed)\n", "", ["C06"]),
+    ("allow-unsorted", "dispatch.go", "\tsort.Strings(allowed)\n", "\tsort.Sort(sort.Reverse(sort.StringSlice(allowed)))\n", ["C06"]),
     ("cache-key-without-method", "parse_match.go", "route, ok := r.cachedRoutes.Get(method + path)", "route, ok := r.cachedRoutes.Get(path)", ["C07", "C14"]),
     ("cache-key-without-method-both", "parse_match.go", None, None, ["C07"]),
     ("cache-before-static", "parse_match.go", "\t// find in stable routes\n\tif route, ok := r.stableRoutes[method+path]; ok {\n\t\t// return r.newMatchResult(route, nil)\n\t\treturn route, nil\n\t}\n\n\t// find in cached routes\n\tif r.enableCaching && r.cachedRoutes != nil {\n\t\troute, ok := r.cachedRoutes.Get(method + path)\n\t\tif ok {\n\t\t\treturn route, route.params\n\t\t}\n\t}", "\t// find in cached routes\n\tif r.enableCaching && r.cachedRoutes != nil {\n\t\troute, ok := r.cachedRoutes.Get(method + path)\n\t\tif ok {\n\t\t\treturn route, route.params\n\t\t}\n\t}\n\n\t// find in stable routes\n\tif route, ok := r.stableRoutes[method+path]; ok {\n\t\t// return r.newMatchResult(route, nil)\n\t\treturn route, nil\n\t}", ["C07"]),
@@ -58,12 +58,12 @@ M = [
     ("buildurl-query-escape-path", "extends.go", "goutil.String(b.params[name]))\n\t}\n\n\tu.Path", "url.PathEscape(goutil.String(b.params[name])))\n\t}\n\n\tu.Path", ["C15"]),
     ("resource-create-missing-slash", "router.go", "\"/\"+strings.ToLower(name)+\"/\", action, methods...)\n\t\t\t} else if name == EditAction", "\"/\"+strings.ToLower(name)+\"s/\", action, methods...)\n\t\t\t} else if name == EditAction", ["C16"]),
     ("resource-uses-applied-to-all", "router.go", "\t\t\tif handlers, ok := handlerFuncs[name]; ok {\n\t\t\t\troute.Use(handlers...)\n\t\t\t}", "\t\t\tfor _, handlers := range handlerFuncs {\n\t\t\t\troute.Use(handlers...)\n\t\t\t\tbreak\n\t\t\t}", ["C16"]),
-    ("staticfiles-naive-join", "router.go", "\t\tc.Req.URL.Path = c.Param(\"file\")\n\t\tfsHandler.ServeHTTP(c.Resp, c.Req)", "\t\tc.File(rootDir + \"/\" + c.Param(\"file\"))", ["C17"]),
+    ("staticfiles-naive-join", "router.go", "\t\tc.Req.URL.Path = c.Param(\"file\")\n\t\tfsHandler.ServeHTTP(c.Resp, c.Req)", "\t\t_ = fsHandler\n\t\tc.File(rootDir + \"/\" + c.Param(\"file\"))", ["C17"]),
     ("staticfiles-ext-unanchored", "router.go", "`%s/{file:.+\\.(?:%s)}`", "`%s/{file:.+\\.(?:%s).*}`", ["C17"]),
     ("bind-put-uses-query", "pkg/binding/binding.go", "if method != \"POST\" && method != \"PUT\" && method != \"PATCH\" {", "if method != \"POST\" && method != \"PATCH\" {", ["C18"]),
     ("bind-form-uses-form-not-postform", "pkg/binding/binding.go", "\t\tif err = r.ParseForm(); err != nil {\n\t\t\treturn err\n\t\t}\n\n\t\treturn Form.BindValues(r.PostForm, obj)", "\t\tif err = r.ParseForm(); err != nil {\n\t\t\treturn err\n\t\t}\n\n\t\treturn Form.BindValues(r.Form, obj)", ["C18"]),
     ("bind-json-skips-validate", "pkg/binding/json.go", "\treturn Validate(ptr)\n}", "\treturn nil\n}", ["C18"]),
-    ("render-overrides-content-type", "pkg/render/render.go", "\tif val := header[\"Content-Type\"]; len(val) == 0 {\n\t\tw.Header().Set(\"Content-Type\", value)\n\t}", "\tw.Header().Set(\"Content-Type\", value)", ["C19"]),
+    ("render-overrides-content-type", "pkg/render/render.go", "\tif val := header[\"Content-Type\"]; len(val) == 0 {\n\t\tw.Header().Set(\"Content-Type\", value)\n\t}", "\t_ = header\n\tw.Header().Set(\"Content-Type\", value)", ["C19"]),
     ("jsonp-missing-semicolon", "pkg/render/json.go", "w.Write([]byte(\");\"))", "w.Write([]byte(\")\"))", ["C19"]),
     ("auto-text-before-json", "pkg/render/render.go", "\tfor _, accept := range accepts {\n\t\tswitch accept {", "\tfor i := len(accepts) - 1; i >= 0; i-- {\n\t\taccept := accepts[i]\n\t\tswitch accept {", ["C19"]),
     ("auth-403-does-not-abort", "pkg/handlers/middlewares.go", "\t\t\tif !ok || srcPwd != pwd {\n\t\t\t\tc.AbortWithStatus(403)\n\t\t\t}", "\t\t\tif !ok || srcPwd != pwd {\n\t\t\t\tc.SetStatus(403)\n\t\t\t}", ["C20"]),
